@@ -9,7 +9,7 @@ import (
 	"sort"
 	"strconv"
 	"testing"
-	"time"
+	"testing/synctest"
 )
 
 var (
@@ -53,16 +53,25 @@ func TestCheck(t *testing.T) {
 		tier = v
 	}
 	rc := &RunCtx{T: t, ID: *flagCheck, Tier: tier, Seed: seed, Root: *flagRoot, Replay: *flagReplay,
-		Worker: *flagWorker, Out: *flagOut, Start: time.Now()}
+		Worker: *flagWorker, Out: *flagOut, Start: realNow()}
 	if *flagBudget > 0 {
 		rc.Deadline = rc.Start.Add(*flagBudget)
 	}
-	rep := f(rc)
-	if rc.Worker != "" {
-		// workers write their partial result themselves and never decide the exit status
-		os.Exit(0)
+	body := func() {
+		rep := f(rc)
+		if rc.Worker != "" {
+			// workers write their partial result themselves and never decide the exit status
+			os.Exit(0)
+		}
+		os.Exit(finish(rc, rep))
 	}
-	os.Exit(finish(rc, rep))
+	if needsBubble[*flagCheck] {
+		// the process exits inside the bubble: goroutines of the world are still parked and a bubble must not
+		// be left while they are
+		synctest.Test(t, func(t *testing.T) { rc.T = t; body() })
+		return
+	}
+	body()
 }
 
 func flagWasSet(name string) bool {
